@@ -341,7 +341,7 @@ package main
 //@ func psSetNewSrc
 //@   props C07 C16
 //@   panics may
-//@   ensures only-the-tokenizer-is-replaced: result.scope == ps.scope && result.offsideCol == ps.offsideCol && result.tvc == ps.tvc && result.tdctx == ps.tdctx
+//@   ensures only-the-tokenizer-is-replaced: result.scope == ps.scope && sameoff(result.offsideCol, ps.offsideCol) && result.tvc == ps.tvc && result.tdctx == ps.tdctx
 //@   ensures new-source: result.tkz.buf == src
 //@   inline-call newTkz#0
 //@   note newTkz is executed in place (over SMT strings); nextToken is used through its contract
@@ -397,7 +397,7 @@ package main
 //@   modifies glob:uniqueid
 //@   panics never
 //@   ensures counter-reset: uniqueId == 0
-//@   ensures rest-kept: result.tkz == ps.tkz && result.scope == ps.scope && result.offsideCol == ps.offsideCol && result.tdctx == ps.tdctx
+//@   ensures rest-kept: result.tkz == ps.tkz && result.scope == ps.scope && sameoff(result.offsideCol, ps.offsideCol) && result.tdctx == ps.tdctx
 
 //@ func tkzPanic
 //@   props C07 C09 C06
@@ -412,14 +412,14 @@ package main
 //@   requires live: live(ps)
 //@   panics may
 //@   ensures ident: ps.tkz.current.ttype == New_TokenType_IDENTIFIER && result.E0 == skipeol(adv(ps)) && result.E1 == ps.tkz.current.stringVal
-//@   ensures kept: live(result.E0) && samebuf(result.E0, ps) && result.E0.scope == ps.scope && result.E0.offsideCol == ps.offsideCol
+//@   ensures kept: live(result.E0) && samebuf(result.E0, ps) && result.E0.scope == ps.scope && sameoff(result.E0.offsideCol, ps.offsideCol)
 //@   ensures progress: result.E0.tkz.current.begin > ps.tkz.current.begin
 
 //@ func psStringValNxL
 //@   props C16
 //@   requires live: live(ps)
 //@   panics may
-//@   ensures kept: live(result.E0) && samebuf(result.E0, ps) && result.E0.scope == ps.scope && result.E0.offsideCol == ps.offsideCol
+//@   ensures kept: live(result.E0) && samebuf(result.E0, ps) && result.E0.scope == ps.scope && sameoff(result.E0.offsideCol, ps.offsideCol)
 //@   ensures progress: result.E0.tkz.current.begin > ps.tkz.current.begin
 
 //@ func parsePackage
@@ -427,21 +427,21 @@ package main
 //@   requires live: live(ps)
 //@   panics may
 //@   ensures statement: ps.tkz.current.ttype == New_TokenType_PACKAGE && result.E1 == RootStmt_RSPackage(adv(ps).tkz.current.stringVal)
-//@   ensures kept: live(result.E0) && samebuf(result.E0, ps) && result.E0.scope == ps.scope && result.E0.offsideCol == ps.offsideCol
+//@   ensures kept: live(result.E0) && samebuf(result.E0, ps) && result.E0.scope == ps.scope && sameoff(result.E0.offsideCol, ps.offsideCol)
 //@   ensures progress: result.E0.tkz.current.begin > ps.tkz.current.begin
 
 //@ func parseImport
 //@   props C16
 //@   requires live: live(ps)
 //@   panics may
-//@   ensures kept: live(result.E0) && samebuf(result.E0, ps) && result.E0.scope == ps.scope && result.E0.offsideCol == ps.offsideCol
+//@   ensures kept: live(result.E0) && samebuf(result.E0, ps) && result.E0.scope == ps.scope && sameoff(result.E0.offsideCol, ps.offsideCol)
 //@   ensures progress: result.E0.tkz.current.begin > ps.tkz.current.begin
 
 //@ func parseRawLet
 //@   trusted
 //@   modifies maps glob:vardefs glob:typeregs
 //@   panics may
-//@   ensures kept: live(ps) ==> live(result.E0) && samebuf(result.E0, ps) && result.E0.tkz.current.begin > ps.tkz.current.begin && result.E0.scope == ps.scope && result.E0.offsideCol == ps.offsideCol
+//@   ensures kept: live(ps) ==> live(result.E0) && samebuf(result.E0, ps) && result.E0.tkz.current.begin > ps.tkz.current.begin && result.E0.scope == ps.scope && sameoff(result.E0.offsideCol, ps.offsideCol)
 //@   note abstract: one let (variable, destructuring or function form) with its body
 
 //@ func InferLfd
@@ -465,7 +465,7 @@ package main
 //@   panics may
 //@   ensures C03 a-function-is-registered-as-a-factory: is(RootStmt_RSRootFuncDef, result.E1) ==> glob(vardefs) == reg_varfac(L, result.E0.scope, RootStmt_RSRootFuncDef_Value(result.E1).Lfd.Fvar.Name)
 //@   ensures C03 a-variable-is-defined: is(RootStmt_RSRootVarDef, result.E1) ==> glob(vardefs) == def_var(L, result.E0.scope, RootStmt_RSRootVarDef_Value(result.E1).Vdef.Lvar.Name, RootStmt_RSRootVarDef_Value(result.E1).Vdef.Lvar)
-//@   ensures kept: live(result.E0) && samebuf(result.E0, ps0) && result.E0.tkz.current.begin > ps0.tkz.current.begin && result.E0.scope == ps0.scope && result.E0.offsideCol == ps0.offsideCol
+//@   ensures kept: live(result.E0) && samebuf(result.E0, ps0) && result.E0.tkz.current.begin > ps0.tkz.current.begin && result.E0.scope == ps0.scope && sameoff(result.E0.offsideCol, ps0.offsideCol)
 //@   at after call parseRawLet#0: L = glob(vardefs)
 
 //@ func parseTypeDef
@@ -611,7 +611,7 @@ package main
 //@   returns-def skipeol(ps)
 //@   ensures not-eol: result.tkz.current.ttype != New_TokenType_EOL
 //@   ensures fix: ps.tkz.current.ttype != New_TokenType_EOL ==> result == ps
-//@   ensures frame: result.scope == ps.scope && result.offsideCol == ps.offsideCol && result.tvc == ps.tvc && result.tdctx == ps.tdctx
+//@   ensures frame: result.scope == ps.scope && sameoff(result.offsideCol, ps.offsideCol) && result.tvc == ps.tvc && result.tdctx == ps.tdctx
 //@   ensures live: live(result) && samebuf(result, ps) && result.tkz.current.begin >= ps.tkz.current.begin
 //@   note skipeol(ps) is DEFINED as the state this function returns; the axioms skipeol-idem and skipeol-frame (externals.spec) follow from the clauses not-eol, fix and frame proved here
 
@@ -621,7 +621,7 @@ package main
 //@   panics may
 //@   returns adv(ps)
 //@   ensures consumed: ps.tkz.current.ttype == ttype && result == adv(ps)
-//@   ensures frame: result.scope == ps.scope && result.offsideCol == ps.offsideCol && result.tvc == ps.tvc && result.tdctx == ps.tdctx
+//@   ensures frame: result.scope == ps.scope && sameoff(result.offsideCol, ps.offsideCol) && result.tvc == ps.tvc && result.tdctx == ps.tdctx
 //@   ensures live: live(result) && samebuf(result, ps)
 //@   ensures mono: result.tkz.current.begin >= ps.tkz.current.begin
 //@   ensures progress: ttype != New_TokenType_EOF ==> result.tkz.current.begin > ps.tkz.current.begin
@@ -1171,7 +1171,7 @@ package main
 //@   requires live: live(ps)
 //@   requires offside-stack-non-empty: len(ps.offsideCol) >= 1
 //@   requires block-parser-keeps-the-token-stream: forall p ParseState :: {pBlock(p)} live(p) ==> live(pBlock(p).E0) && samebuf(pBlock(p).E0, p)
-//@   requires block-parser-keeps-the-offside-stack: forall p ParseState :: {pBlock(p)} pBlock(p).E0.offsideCol == p.offsideCol
+//@   requires block-parser-keeps-the-offside-stack: forall p ParseState :: {pBlock(p)} sameoff(pBlock(p).E0.offsideCol, p.offsideCol)
 //@   requires block-parser-keeps-the-scope: forall p ParseState :: {pBlock(p)} pBlock(p).E0.scope == p.scope
 //@   panics may
 //@   ensures default-only-inside-offside: is(UnionMatchRules_UCaseWD, result.E1) ==> len(P.offsideCol) > 0 && P.tkz.col >= P.offsideCol[len(P.offsideCol) - 1] && is_default_mr(P)
@@ -1240,7 +1240,7 @@ package main
 //@   panics may
 //@   requires live: live(ps)
 //@   returns-def adv(ps)
-//@   ensures frame: result.scope == ps.scope && result.offsideCol == ps.offsideCol && result.tvc == ps.tvc && result.tdctx == ps.tdctx
+//@   ensures frame: result.scope == ps.scope && sameoff(result.offsideCol, ps.offsideCol) && result.tvc == ps.tvc && result.tdctx == ps.tdctx
 //@   ensures live: live(result) && samebuf(result, ps)
 //@   ensures mono: result.tkz.current.begin >= ps.tkz.current.begin
 //@   ensures progress: ps.tkz.current.ttype != New_TokenType_EOF ==> result.tkz.current.begin > ps.tkz.current.begin
@@ -1252,7 +1252,7 @@ package main
 //@   requires live: live(ps)
 //@   panics may
 //@   ensures ident: ps.tkz.current.ttype == New_TokenType_IDENTIFIER && result.E0 == adv(ps) && result.E1 == ps.tkz.current.stringVal
-//@   ensures frame: result.E0.scope == ps.scope && result.E0.offsideCol == ps.offsideCol && result.E0.tvc == ps.tvc && result.E0.tdctx == ps.tdctx
+//@   ensures frame: result.E0.scope == ps.scope && sameoff(result.E0.offsideCol, ps.offsideCol) && result.E0.tvc == ps.tvc && result.E0.tdctx == ps.tdctx
 //@   ensures live: live(result.E0) && samebuf(result.E0, ps)
 //@   ensures progress: result.E0.tkz.current.begin > ps.tkz.current.begin
 
@@ -1264,7 +1264,7 @@ package main
 //@   panics may
 //@   decreases rem(ps)
 //@   ensures scope-kept: result.scope == ps.scope
-//@   ensures live: live(result) && samebuf(result, ps) && result.offsideCol == ps.offsideCol
+//@   ensures live: live(result) && samebuf(result, ps) && sameoff(result.offsideCol, ps.offsideCol)
 //@   ensures block-ends-left-of-its-column-or-at-the-end: result.tkz.col < result.offsideCol[len(result.offsideCol) - 1] || result.tkz.current.ttype == New_TokenType_EOF || result.tkz.current.ttype == New_TokenType_RPAREN
 
 //@ func piRegAll
@@ -1328,7 +1328,7 @@ package main
 //@   panics may
 //@   decreases rem(ps)
 //@   ensures grammar: Rfullname(ps, result.E0, result.E1)
-//@   ensures frame: result.E0.scope == ps.scope && result.E0.offsideCol == ps.offsideCol
+//@   ensures frame: result.E0.scope == ps.scope && sameoff(result.E0.offsideCol, ps.offsideCol)
 //@   ensures live: live(result.E0) && samebuf(result.E0, ps)
 //@   ensures progress: result.E0.tkz.current.begin > ps.tkz.current.begin
 
@@ -1342,7 +1342,7 @@ package main
 //@   decreases 8 * rem(ps) + 6
 //@   ensures grammar: Rtlist(ps, result.E0, result.E1)
 //@   ensures live: live(result.E0) && samebuf(result.E0, ps)
-//@   ensures frame: result.E0.scope == ps.scope && result.E0.offsideCol == ps.offsideCol
+//@   ensures frame: result.E0.scope == ps.scope && sameoff(result.E0.offsideCol, ps.offsideCol)
 //@   ensures progress: result.E0.tkz.current.begin > ps.tkz.current.begin
 
 //@ func mightParseSpecifiedTypeList
@@ -1355,7 +1355,7 @@ package main
 //@   decreases 8 * rem(ps) + 7
 //@   ensures grammar: Rtargs(ps, result.E0, result.E1)
 //@   ensures live: live(result.E0) && samebuf(result.E0, ps)
-//@   ensures frame: result.E0.scope == ps.scope && result.E0.offsideCol == ps.offsideCol
+//@   ensures frame: result.E0.scope == ps.scope && sameoff(result.E0.offsideCol, ps.offsideCol)
 //@   ensures mono: result.E0.tkz.current.begin >= ps.tkz.current.begin
 
 //@ func tdctxTVFAlloc
@@ -1374,7 +1374,7 @@ package main
 //@   decreases 8 * rem(ps) + 1
 //@   ensures grammar: Ratom(ps, result.E0, result.E1)
 //@   ensures live: live(result.E0) && samebuf(result.E0, ps)
-//@   ensures frame: result.E0.scope == ps.scope && result.E0.offsideCol == ps.offsideCol
+//@   ensures frame: result.E0.scope == ps.scope && sameoff(result.E0.offsideCol, ps.offsideCol)
 //@   ensures progress: result.E0.tkz.current.begin > ps.tkz.current.begin
 
 //@ func parseTermType
@@ -1387,7 +1387,7 @@ package main
 //@   decreases 8 * rem(ps) + 2
 //@   ensures grammar: Rterm(ps, result.E0, result.E1)
 //@   ensures live: live(result.E0) && samebuf(result.E0, ps)
-//@   ensures frame: result.E0.scope == ps.scope && result.E0.offsideCol == ps.offsideCol
+//@   ensures frame: result.E0.scope == ps.scope && sameoff(result.E0.offsideCol, ps.offsideCol)
 //@   ensures progress: result.E0.tkz.current.begin > ps.tkz.current.begin
 
 //@ func parseElemType
@@ -1400,13 +1400,13 @@ package main
 //@   decreases 8 * rem(ps) + 3
 //@   ensures grammar: Relem(ps, result.E0, result.E1)
 //@   ensures live: live(result.E0) && samebuf(result.E0, ps)
-//@   ensures frame: result.E0.scope == ps.scope && result.E0.offsideCol == ps.offsideCol
+//@   ensures frame: result.E0.scope == ps.scope && sameoff(result.E0.offsideCol, ps.offsideCol)
 //@   ensures progress: result.E0.tkz.current.begin > ps.tkz.current.begin
 //@   inline-call ParseList2
 //@   loop ParseList2/0:
 //@     invariant terms: Rterms(old(ps), ps, res) && len(res) >= 1
 //@     invariant live: live(ps) && samebuf(ps, old(ps)) && ps.tkz.current.begin > old(ps).tkz.current.begin
-//@     invariant frame: ps.scope == old(ps).scope && ps.offsideCol == old(ps).offsideCol
+//@     invariant frame: ps.scope == old(ps).scope && sameoff(ps.offsideCol, old(ps).offsideCol)
 //@     decreases rem(ps)
 
 //@ func parseTypeArrows
@@ -1419,7 +1419,7 @@ package main
 //@   decreases 8 * rem(ps) + 4
 //@   ensures grammar: Rarrows(ps, result.E0, result.E1)
 //@   ensures live: live(result.E0) && samebuf(result.E0, ps)
-//@   ensures frame: result.E0.scope == ps.scope && result.E0.offsideCol == ps.offsideCol
+//@   ensures frame: result.E0.scope == ps.scope && sameoff(result.E0.offsideCol, ps.offsideCol)
 //@   ensures progress: result.E0.tkz.current.begin > ps.tkz.current.begin
 //@   ensures nonempty: len(result.E1) >= 1
 
@@ -1432,7 +1432,7 @@ package main
 //@   decreases 8 * rem(ps) + 5
 //@   ensures grammar: Rtype(ps, result.E0, result.E1)
 //@   ensures live: live(result.E0) && samebuf(result.E0, ps)
-//@   ensures frame: result.E0.scope == ps.scope && result.E0.offsideCol == ps.offsideCol
+//@   ensures frame: result.E0.scope == ps.scope && sameoff(result.E0.offsideCol, ps.offsideCol)
 //@   ensures progress: result.E0.tkz.current.begin > ps.tkz.current.begin
 
 // ---------------------------------------------------------------------------------------------
@@ -1636,10 +1636,10 @@ package main
 //@   ensures C07 payload-variable-in-the-child-scope: result.E1.UnionPattern.VarName != "" && result.E1.UnionPattern.VarName != "_" ==> exists v Var :: {def_var(old(glob(vardefs)), arg(pBlock, old(calls(pBlock))).scope, result.E1.UnionPattern.VarName, v)} v.Name == result.E1.UnionPattern.VarName && glob(vardefs) == def_var(old(glob(vardefs)), arg(pBlock, old(calls(pBlock))).scope, result.E1.UnionPattern.VarName, v)
 //@   ensures C07 scope-restored: result.E0.scope == ps.scope
 //@   requires block-parser-keeps-the-token-stream: forall p ParseState :: {pBlock(p)} live(p) ==> live(pBlock(p).E0) && samebuf(pBlock(p).E0, p)
-//@   requires block-parser-keeps-the-offside-stack: forall p ParseState :: {pBlock(p)} pBlock(p).E0.offsideCol == p.offsideCol
+//@   requires block-parser-keeps-the-offside-stack: forall p ParseState :: {pBlock(p)} sameoff(pBlock(p).E0.offsideCol, p.offsideCol)
 //@   panics may
 //@   ensures live: live(result.E0) && samebuf(result.E0, ps)
-//@   ensures offside-stack-kept: result.E0.offsideCol == ps.offsideCol
+//@   ensures offside-stack-kept: sameoff(result.E0.offsideCol, ps.offsideCol)
 //@   ensures C09 binding-arm-needs-a-union-target: result.E1.UnionPattern.VarName != "" && result.E1.UnionPattern.VarName != "_" ==> is(FType_FUnion, exprtype(target))
 //@   ensures body-parsed-once: calls(pBlock) == old(calls(pBlock)) + 1
 //@   ensures body-starts-after-line-breaks: arg(pBlock, old(calls(pBlock))).tkz.current.ttype != New_TokenType_EOL
@@ -1649,7 +1649,7 @@ package main
 //@   modifies maps glob:vardefs
 //@   panics may
 //@   ensures live: live(ps) ==> live(result.E0) && samebuf(result.E0, ps)
-//@   ensures scope-kept: result.E0.scope == ps.scope && result.E0.offsideCol == ps.offsideCol
+//@   ensures scope-kept: result.E0.scope == ps.scope && sameoff(result.E0.offsideCol, ps.offsideCol)
 //@   ensures defined-in-the-scope-given: glob(vardefs) == params_log(old(glob(vardefs)), ps.scope, result.E1)
 //@   note abstract: the parameter list of a let / fun (defines the parameters in the current scope)
 
@@ -1709,16 +1709,16 @@ package main
 //@   requires block-parser-keeps-the-scope: forall p ParseState :: {pBlock(p)} pBlock(p).E0.scope == p.scope
 //@   requires offside-stack-non-empty: len(ps.offsideCol) >= 1
 //@   requires block-parser-keeps-the-token-stream: forall p ParseState :: {pBlock(p)} live(p) ==> live(pBlock(p).E0) && samebuf(pBlock(p).E0, p)
-//@   requires block-parser-keeps-the-offside-stack: forall p ParseState :: {pBlock(p)} pBlock(p).E0.offsideCol == p.offsideCol
+//@   requires block-parser-keeps-the-offside-stack: forall p ParseState :: {pBlock(p)} sameoff(pBlock(p).E0.offsideCol, p.offsideCol)
 //@   panics may
 //@   ensures arms-end-at-the-offside-line: !(result.E0.tkz.col >= result.E0.offsideCol[len(result.E0.offsideCol) - 1] && result.E0.tkz.current.ttype == New_TokenType_BAR && !is_default_mr(result.E0))
 //@   ensures at-least-one-arm: len(result.E1) >= 1
-//@   ensures offside-stack-kept: result.E0.offsideCol == ps.offsideCol
+//@   ensures offside-stack-kept: sameoff(result.E0.offsideCol, ps.offsideCol)
 //@   ensures live: live(result.E0) && samebuf(result.E0, ps)
 //@   inline-call ParseList2
 //@   loop ParseList2/0:
 //@     invariant live: live(ps) && samebuf(ps, old(ps))
-//@     invariant offside: ps.offsideCol == old(ps).offsideCol
+//@     invariant offside: sameoff(ps.offsideCol, old(ps).offsideCol)
 //@     invariant arms: len(res) >= 1
 
 // ---------------------------------------------------------------------------------------------
@@ -1732,7 +1732,7 @@ package main
 //@   panics may
 //@   returns-def nextnol(ps)
 //@   ensures not-eol: result.tkz.current.ttype != New_TokenType_EOL
-//@   ensures frame: result.scope == ps.scope && result.offsideCol == ps.offsideCol && result.tvc == ps.tvc && result.tdctx == ps.tdctx
+//@   ensures frame: result.scope == ps.scope && sameoff(result.offsideCol, ps.offsideCol) && result.tvc == ps.tvc && result.tdctx == ps.tdctx
 //@   ensures live: live(result) && samebuf(result, ps) && result.tkz.current.begin >= ps.tkz.current.begin
 
 //@ func parseFieldDef
@@ -1742,7 +1742,7 @@ package main
 //@   panics may
 //@   ensures grammar: Rfield(ps, result.E0, result.E1)
 //@   ensures live: live(result.E0) && samebuf(result.E0, ps)
-//@   ensures frame: result.E0.scope == ps.scope && result.E0.offsideCol == ps.offsideCol
+//@   ensures frame: result.E0.scope == ps.scope && sameoff(result.E0.offsideCol, ps.offsideCol)
 //@   ensures progress: result.E0.tkz.current.begin > ps.tkz.current.begin
 
 //@ func parseFieldDefs
@@ -1754,7 +1754,7 @@ package main
 //@   ensures grammar: Rfields(ps, result.E0, result.E1)
 //@   ensures ends-at-brace: result.E0.tkz.current.ttype == New_TokenType_RBRACE
 //@   ensures live: live(result.E0) && samebuf(result.E0, ps)
-//@   ensures frame: result.E0.scope == ps.scope && result.E0.offsideCol == ps.offsideCol
+//@   ensures frame: result.E0.scope == ps.scope && sameoff(result.E0.offsideCol, ps.offsideCol)
 
 // ---------------------------------------------------------------------------------------------
 // C03: what a type definition registers (abstract registration logs, /verif/specs/decl.spec).
@@ -1867,13 +1867,13 @@ package main
 //@   ensures resets-the-placeholder-allocator-only: glob(tvaresets) == reset_of(old(glob(tvaresets)), ps.tdctx.tva)
 //@   ensures context: result.tdctx.tva == ps.tdctx.tva && result.tdctx.insideTD && (forall k string :: !has(result.tdctx.defined.Fdict, k)) && (forall k string :: !has(result.tdctx.allocedDict.Fdict, k))
 //@   ensures fresh-tables: result.tdctx.defined.Fdict >= old(next) && result.tdctx.allocedDict.Fdict >= old(next) && result.tdctx.defined.Fdict != result.tdctx.allocedDict.Fdict
-//@   ensures rest: result.tkz == ps.tkz && result.scope == ps.scope && result.offsideCol == ps.offsideCol && result.tvc == ps.tvc
+//@   ensures rest: result.tkz == ps.tkz && result.scope == ps.scope && sameoff(result.offsideCol, ps.offsideCol) && result.tvc == ps.tvc
 
 //@ func psLeaveTypeDef
 //@   props C07
 //@   panics never
 //@   ensures context: result.tdctx.tva == ps.tdctx.tva && !result.tdctx.insideTD && result.tdctx.defined == ps.tdctx.defined && result.tdctx.allocedDict == ps.tdctx.allocedDict
-//@   ensures rest: result.tkz == ps.tkz && result.scope == ps.scope && result.offsideCol == ps.offsideCol && result.tvc == ps.tvc
+//@   ensures rest: result.tkz == ps.tkz && result.scope == ps.scope && sameoff(result.offsideCol, ps.offsideCol) && result.tvc == ps.tvc
 
 // ---------------------------------------------------------------------------------------------
 // C08, operands: literals are their nodes, () is unit, parentheses only group (the expression inside is
@@ -2016,7 +2016,7 @@ package main
 //@   requires live: live(ps)
 //@   requires offside-stack-non-empty: len(ps.offsideCol) >= 1
 //@   requires block-parser-keeps-the-token-stream: forall p ParseState :: {pBlock(p)} live(p) ==> live(pBlock(p).E0) && samebuf(pBlock(p).E0, p)
-//@   requires block-parser-keeps-the-offside-stack: forall p ParseState :: {pBlock(p)} pBlock(p).E0.offsideCol == p.offsideCol
+//@   requires block-parser-keeps-the-offside-stack: forall p ParseState :: {pBlock(p)} sameoff(pBlock(p).E0.offsideCol, p.offsideCol)
 //@   requires block-parser-keeps-the-scope: forall p ParseState :: {pBlock(p)} pBlock(p).E0.scope == p.scope
 //@   panics may
 //@   ensures default-arm-alone-is-rejected: !(ps.tkz.current.ttype == New_TokenType_BAR && adv(ps).tkz.current.ttype == New_TokenType_UNDER_SCORE)
@@ -2028,9 +2028,9 @@ package main
 //@   ghost P ParseState          -- the state at which the rules are parsed
 //@   requires live: live(ps)
 //@   requires offside-stack-non-empty: len(ps.offsideCol) >= 1
-//@   requires expression-parser-keeps-the-token-stream: forall p ParseState :: {pExpr(p)} live(p) ==> live(pExpr(p).E0) && samebuf(pExpr(p).E0, p) && pExpr(p).E0.offsideCol == p.offsideCol
+//@   requires expression-parser-keeps-the-token-stream: forall p ParseState :: {pExpr(p)} live(p) ==> live(pExpr(p).E0) && samebuf(pExpr(p).E0, p) && sameoff(pExpr(p).E0.offsideCol, p.offsideCol)
 //@   requires block-parser-keeps-the-token-stream: forall p ParseState :: {pBlock(p)} live(p) ==> live(pBlock(p).E0) && samebuf(pBlock(p).E0, p)
-//@   requires block-parser-keeps-the-offside-stack: forall p ParseState :: {pBlock(p)} pBlock(p).E0.offsideCol == p.offsideCol
+//@   requires block-parser-keeps-the-offside-stack: forall p ParseState :: {pBlock(p)} sameoff(pBlock(p).E0.offsideCol, p.offsideCol)
 //@   requires block-parser-keeps-the-scope: forall p ParseState :: {pBlock(p)} pBlock(p).E0.scope == p.scope
 //@   panics may
 //@   ensures rules-start-after-line-breaks: P.tkz.current.ttype != New_TokenType_EOL
@@ -2048,7 +2048,7 @@ package main
 //@   trusted
 //@   panics may
 //@   ensures live: live(ps) ==> live(result.E0) && samebuf(result.E0, ps) && result.E0.tkz.current.begin >= ps.tkz.current.begin
-//@   ensures frame: result.E0.scope == ps.scope && result.E0.offsideCol == ps.offsideCol
+//@   ensures frame: result.E0.scope == ps.scope && sameoff(result.E0.offsideCol, ps.offsideCol)
 //@   note abstract: an optional <T, U> list of type-parameter names
 
 //@ func psRegTypeVars
@@ -2082,7 +2082,7 @@ package main
 //@   ensures signature-as-written: has(pi.FuncInfo.Fdict, adv(ps).tkz.current.stringVal) && Rarrows(PT, result, pi.FuncInfo.Fdict[adv(ps).tkz.current.stringVal].Targets)
 //@   ensures callable-in-the-block: glob(vardefs) == reg_varfac(old(glob(vardefs)), result.scope, adv(ps).tkz.current.stringVal)
 //@   ensures scope-kept: result.scope == ps.scope
-//@   ensures live: live(result) && samebuf(result, ps) && result.offsideCol == ps.offsideCol
+//@   ensures live: live(result) && samebuf(result, ps) && sameoff(result.offsideCol, ps.offsideCol)
 //@   ensures progress: result.tkz.current.begin > ps.tkz.current.begin
 //@   at before call parseTypeArrows#0: PT = $1
 
@@ -2113,7 +2113,7 @@ package main
 //@   ensures recorded-with-the-qualified-name: has(pi.TypeInfo.Fdict, adv(ps).tkz.current.stringVal) && pi.TypeInfo.Fdict[adv(ps).tkz.current.stringVal].Name == ite(pi.Name == "_", adv(ps).tkz.current.stringVal, pi.Name + "." + adv(ps).tkz.current.stringVal)
 //@   ensures known-in-the-block-under-the-plain-name: glob(typeregs) == reg_type(old(glob(typeregs)), result.scope, adv(ps).tkz.current.stringVal)
 //@   ensures scope-kept: result.scope == ps.scope
-//@   ensures live: live(result) && samebuf(result, ps) && result.offsideCol == ps.offsideCol
+//@   ensures live: live(result) && samebuf(result, ps) && sameoff(result.offsideCol, ps.offsideCol)
 //@   ensures progress: result.tkz.current.begin > ps.tkz.current.begin
 
 //@ func regTF
@@ -2129,7 +2129,7 @@ package main
 //@   panics may
 //@   ensures only-let-and-type: ps.tkz.current.ttype == New_TokenType_LET || ps.tkz.current.ttype == New_TokenType_TYPE
 //@   ensures scope-kept: result.scope == ps.scope
-//@   ensures live: live(result) && samebuf(result, ps) && result.offsideCol == ps.offsideCol
+//@   ensures live: live(result) && samebuf(result, ps) && sameoff(result.offsideCol, ps.offsideCol)
 //@   ensures progress: result.tkz.current.begin > ps.tkz.current.begin
 
 // ---------------------------------------------------------------------------------------------
@@ -2222,16 +2222,16 @@ package main
 //@   modifies maps
 //@   requires live: live(ps)
 //@   requires offside-stack-non-empty: len(ps.offsideCol) >= 1
-//@   requires expression-parser-keeps: forall p ParseState :: {pExpr(p)} live(p) ==> live(pExpr(p).E0) && samebuf(pExpr(p).E0, p) && pExpr(p).E0.offsideCol == p.offsideCol && pExpr(p).E0.scope == p.scope
-//@   requires let-parser-keeps: forall p ParseState :: {pLet(p)} live(p) ==> live(pLet(p).E0) && samebuf(pLet(p).E0, p) && pLet(p).E0.offsideCol == p.offsideCol && pLet(p).E0.scope == p.scope
+//@   requires expression-parser-keeps: forall p ParseState :: {pExpr(p)} live(p) ==> live(pExpr(p).E0) && samebuf(pExpr(p).E0, p) && sameoff(pExpr(p).E0.offsideCol, p.offsideCol) && pExpr(p).E0.scope == p.scope
+//@   requires let-parser-keeps: forall p ParseState :: {pLet(p)} live(p) ==> live(pLet(p).E0) && samebuf(pLet(p).E0, p) && sameoff(pLet(p).E0.offsideCol, p.offsideCol) && pLet(p).E0.scope == p.scope
 //@   panics may
 //@   ensures block-ends-left-of-its-column-or-at-the-end: result.E0.tkz.col < result.E0.offsideCol[len(result.E0.offsideCol) - 1] || result.E0.tkz.current.ttype == New_TokenType_EOF || result.E0.tkz.current.ttype == New_TokenType_RPAREN
 //@   ensures at-least-one-statement: len(result.E1) >= 1
-//@   ensures kept: live(result.E0) && samebuf(result.E0, ps) && result.E0.offsideCol == ps.offsideCol && result.E0.scope == ps.scope
+//@   ensures kept: live(result.E0) && samebuf(result.E0, ps) && sameoff(result.E0.offsideCol, ps.offsideCol) && result.E0.scope == ps.scope
 //@   ensures not-at-a-line-end: result.E0.tkz.current.ttype != New_TokenType_EOL
 //@   inline-call ParseList2#0
 //@   loop ParseList2#0/0:
-//@     invariant kept: live(ps) && samebuf(ps, old(ps)) && ps.offsideCol == old(ps).offsideCol && ps.scope == old(ps).scope
+//@     invariant kept: live(ps) && samebuf(ps, old(ps)) && sameoff(ps.offsideCol, old(ps).offsideCol) && ps.scope == old(ps).scope
 //@     invariant some: len(res) >= 1
 //@     invariant not-eol: ps.tkz.current.ttype != New_TokenType_EOL
 
@@ -2239,8 +2239,8 @@ package main
 //@   props C06
 //@   modifies maps
 //@   requires live: live(ps)
-//@   requires expression-parser-keeps: forall p ParseState :: {pExpr(p)} live(p) ==> live(pExpr(p).E0) && samebuf(pExpr(p).E0, p) && pExpr(p).E0.offsideCol == p.offsideCol && pExpr(p).E0.scope == p.scope
-//@   requires let-parser-keeps: forall p ParseState :: {pLet(p)} live(p) ==> live(pLet(p).E0) && samebuf(pLet(p).E0, p) && pLet(p).E0.offsideCol == p.offsideCol && pLet(p).E0.scope == p.scope
+//@   requires expression-parser-keeps: forall p ParseState :: {pExpr(p)} live(p) ==> live(pExpr(p).E0) && samebuf(pExpr(p).E0, p) && sameoff(pExpr(p).E0.offsideCol, p.offsideCol) && pExpr(p).E0.scope == p.scope
+//@   requires let-parser-keeps: forall p ParseState :: {pLet(p)} live(p) ==> live(pLet(p).E0) && samebuf(pLet(p).E0, p) && sameoff(pLet(p).E0.offsideCol, p.offsideCol) && pLet(p).E0.scope == p.scope
 //@   panics may
 //@   ensures block-column-right-of-the-offside-line: len(ps.offsideCol) >= 1 && ps.offsideCol[len(ps.offsideCol) - 1] < ps.tkz.col
 //@   ensures block-ends-left-of-its-column-or-at-the-end: result.E0.tkz.col < ps.tkz.col || result.E0.tkz.current.ttype == New_TokenType_EOF || result.E0.tkz.current.ttype == New_TokenType_RPAREN
@@ -2349,7 +2349,7 @@ package main
 //@   panics may
 //@   ensures grammar: Rcase(ps, result.E0, result.E1)
 //@   ensures live: live(result.E0) && samebuf(result.E0, ps) && result.E0.tkz.current.begin > ps.tkz.current.begin
-//@   ensures frame: result.E0.scope == ps.scope && result.E0.offsideCol == ps.offsideCol
+//@   ensures frame: result.E0.scope == ps.scope && sameoff(result.E0.offsideCol, ps.offsideCol)
 
 //@ func parseCaseDefs
 //@   props C03
@@ -2359,7 +2359,7 @@ package main
 //@   decreases rem(ps)
 //@   ensures grammar: Rcases(ps, result.E0, result.E1)
 //@   ensures live: live(result.E0) && samebuf(result.E0, ps)
-//@   ensures frame: result.E0.scope == ps.scope && result.E0.offsideCol == ps.offsideCol
+//@   ensures frame: result.E0.scope == ps.scope && sameoff(result.E0.offsideCol, ps.offsideCol)
 
 //@ func NewUnionDef
 //@   props C03
